@@ -106,7 +106,9 @@ def check_tokens(ctx, toks, text, lines, offsets=None):
 FOLLOW = [" ", "\t", "\n", "\r\n", " # c\n", "# c\r\n", "(", ")", ",", ";", "+", "=", ""]
 KIND_SAMPLES = ["x", "longident", "a...", "if", "end", "+", "<=", "!>", "->", "(", "]", "<<", ">>>", "<*", "=>", "...",
                 "1", "12_000", "0x1F", "0b101", "1.5", "'s'", "\"d\"", "''", "'multi\nline'", "\"two\r\nlines\"", "//a+//",
-                "//x\ny//", "TRUE", "FALSE", "%=", "/", "/=", "*>", "<>", "!=", "=="]
+                "//x\ny//", "TRUE", "FALSE", "%=", "/", "/=", "*>", "<>", "!=", "==",
+                # number-like words in every spelling a scanner might one day take for a number
+                "1e3", "2.5E-3", "1.5e+10", "1.0e5", "7E2", "1_0.5_0", "0xFF_FF", "0b1_0", "1__0", "10_", "1.5e", "0x", "3.", "1.2.3", "1e+", "12abc"]
 
 
 def run_follow(ctx):
@@ -393,19 +395,23 @@ def run_modules(spec, ctx):
         name = "m%dx%d" % (ctx.shard, i)
         mode = r.choice(["random", "lf", "crlf", "comments"])
         variant = i % 3
+        # (the module is named after its file, whatever name the requirer binds it to)
+        alias = r.choice([None, None, "al_", "x"])
+        req = ["require", name] + (["as", alias] if alias else [])
+        bound = alias or name
         if variant == 0:
             # fault at module top level (while loading)
             fname, ft = r.choice(RUNTIME_FAULTS[:3])
             toks, keep, fi = build_program(r, ft, None)
             mtext, mlines = layout.render(toks, r, mode, keep_together=keep)
-            main_toks, mkeep, mfi = build_program(r, ["require", name], None)
+            main_toks, mkeep, mfi = build_program(r, req, None)
         elif variant == 1:
             # fault inside a module function called from the main program
             body = [["def", "boom", "(", "x", ")", "1", "/", "x"]]
             toks, keep, fi = build_program(r, ["def", "ok", "=", "1"], None, pre_defs=body)
             mtext, mlines = layout.render(toks, r, mode, keep_together=keep)
             fi = next(k for k, t in enumerate(toks) if t == "/")
-            main_toks, mkeep, mfi = build_program(r, [name, "->", "boom", "(", "0", ")"], None, pre_defs=[["require", name]])
+            main_toks, mkeep, mfi = build_program(r, [bound, "->", "boom", "(", "0", ")"], None, pre_defs=[req])
         else:
             # syntax fault inside the module
             sname, mk = r.choice(SYNTAX_FAULTS[:3])
@@ -413,7 +419,7 @@ def run_modules(spec, ctx):
             toks, keep, fi = build_program(r, ft, None)
             mtext, mlines = layout.render(toks, r, mode, keep_together=keep)
             fi = fi + off
-            main_toks, mkeep, mfi = build_program(r, ["require", name], None)
+            main_toks, mkeep, mfi = build_program(r, req, None)
         with open(os.path.join(moddir, name + ".ckl"), "w", newline="") as f:
             f.write(mtext)
         text, lines = layout.render(main_toks, r, r.choice(["random", "lf"]), keep_together=mkeep)
